@@ -40,7 +40,10 @@ Print Assumptions C05_exec.
    original only matter through the identifiers they left.  If the original was allocated under
    configuration A, allocating its clone under B yields the whole property again for B, with the
    chain of the original program: the allocation of a clone does not depend on what ran on the
-   original.  (For a clone of a program no allocator ran on, C05_exec applies directly.) *)
+   original.  The same statement covers running the allocator again on one object: qA is the value
+   of the object after the run under A, and the next run under B (identifiers cleared, temporaries
+   list started afresh) is allocate cfgB qA.  (For a clone of a program no allocator ran on,
+   C05_exec applies directly.) *)
 Theorem C05_clone_history : forall cfgA cfgB p lst nmap x qA tA,
   cfg_ok cfgB -> wf_ir p -> last_instr p = Some lst -> consistent nmap p ->
   allocate cfgA p = Ok (qA, tA) ->
